@@ -68,7 +68,27 @@ class C14(Prop):
         'CPython reference counting: a dropped failed Deferred is collected (and its DebugInfo recorded) at once',
         'exceptions outside Exception (KeyboardInterrupt in a stage), nested cleanups registered by cleanups, expected failures are not generated',
     ]
-    manifest = None
+    manifest = {
+        'text': 'PARTIAL (runner logic proved, Twisted runtime modelled). Theorems for all test programs (setUp / test / tearDown each '
+                'registering any cleanups; every stage with any side effects - leftover delayed call, logged error, dropped failed Deferred, '
+                'flush, failed expectation - and returning / raising / returning a Deferred that fires or fails after any delay / never), all '
+                'timeouts, all sets of interrupt instants, both runner variants, logging suppression and capture on/off: on the discrete-event '
+                'model of AsynchronousDeferredRunTest over the shared virtual-time reactor/Spinner model exactly one outcome is reported between '
+                'startTest and stopTest; the stages that run are a prefix of the path setUp,[test,tearDown],cleanups-LIFO and each starts only '
+                'after its predecessor\'s Deferred fired; the outcome is success iff the whole path ran, its last Deferred fired strictly before '
+                'the timeout and not after a stop request, every stage completed cleanly, no logged error was left unflushed, no failed Deferred '
+                'dropped, no expectation failed and nothing was left scheduled; otherwise-not-in-time gives an error and the result is asked to '
+                'stop exactly for an interrupt; afterwards no delayed call is pending and the log observers are the original ones in order; the '
+                'reactor loop always ends by a crash within the model\'s fuel. Tied to the real runner by a differential check on a virtual-time '
+                'reactor (random programs incl. one-flaw programs and ties at the timeout / interrupt instant, exhaustive small grid).',
+        'note': 'partial w.r.t. the Twisted runtime: Deferred chaining, inlineCallbacks/maybeDeferred, the log publisher and observers, '
+                'DebugInfo/GC of failed Deferreds are modelled (TTV/Model/AsyncRun.lean), not verified; trusted: Lean kernel, the models '
+                'TTV/Model/Reactor.lean + AsyncRun.lean, the harness and harness/vreactor.py (no real reactor); KeyboardInterrupt in a stage, '
+                'cleanups registered by cleanups and expected failures are outside the generated domain',
+        'technique': 'Lean 4 invariant proofs over a discrete-event model (sorted call queue with dynamic scheduling, fuelled reactor loop, '
+                     'potential-function termination argument, chain invariant through suspensions), executable spec shared with a '
+                     'differential correspondence check against the real code on a virtual-time reactor',
+    }
 
     # ----- implementation side
     def run_impl(self, inp):
